@@ -10,7 +10,7 @@ ASSUMPTIONS = ["a process step (one module entry point) is atomic: rwlock stubbe
                "parsec_taskpool_lookup stub returns the instance of the rank being delivered to",
                "an application message creates exactly one task on its destination; a task sends at most one message per event",
                "class system: parsec_class_initialize replaced by an equivalent initializer over static arrays (clsstub.c)"]
-BOUNDS = {"quick": {"ranks": 2, "events K": "6 (+ prefixes)"}, "thorough": {"ranks": "2..3", "events K": "8..10"}}
+BOUNDS = {"quick": {"ranks": 2, "events K": "6 (+ prefixes)"}, "thorough": {"ranks": "2..3", "events K": "8..10 (+ prefixes)"}}
 SRCS = ["h.c", "clsstub.c", "repo:parsec/class/parsec_list.c"]
 def queries(ctx):
     info = {"symbolic": ["initial tasks per rank", "event kind, ranks a,b, send/keep-running choice, whole/split reception per step"],
@@ -37,6 +37,9 @@ def queries(ctx):
         add(2, 8, 1, 1, 1, 1, ("thorough",), 3000, True)
         add(3, 8, 0, 1, 0, 1, ("thorough",), 3000, True)
         add(3, 8, 2, 1, 1, 1, ("thorough",), 3000, True)
+        add(2, 10, 0, 1, 1, 1, ("thorough",), 3000, True)
+        add(3, 10, 0, 1, 0, 1, ("thorough",), 3000, True)
+        add(3, 9, 3, 1, 0, 0, ("thorough",), 3000, True)
     return qs
 def mutants(ctx):
     return [
